@@ -544,7 +544,7 @@ func (ex *Exec) runFrame(fr *frame) {
 		for _, instr := range nonPhis {
 			ex.steps++
 			if ex.steps > ex.stepBudget {
-				panic(pathAbort{kind: "budget", reason: fmt.Sprintf("instruction budget %d exhausted", ex.stepBudget)})
+				panic(pathAbort{kind: "budget", reason: fmt.Sprintf("instruction budget %d exhausted in %s (%s) crash=%v", ex.stepBudget, fr.fn, ex.stackNames(fr), ex.extra["crashEffect"])})
 			}
 			fr.curInstr = instr
 			if ex.sh.trace {
@@ -614,4 +614,12 @@ func (ex *Exec) doRecover(caller *frame) value {
 		}
 	}
 	return iface{}
+}
+
+func (ex *Exec) stackNames(fr *frame) string {
+	var ns []string
+	for f := fr; f != nil && len(ns) < 8; f = f.caller {
+		ns = append(ns, f.fn.Name())
+	}
+	return strings.Join(ns, "<")
 }
